@@ -518,6 +518,9 @@ func runJSONCase(c *core.Ctx, rng *rand.Rand, id string) {
 				switch {
 				case why == "missing-key" && i < preview:
 					key = "json-preview-missing-key-not-nullable"
+				case i < preview:
+					// a previewed row that does not fit the type inferred from the preview: the inference is wrong
+					key = "json:preview-row-not-covered-by-inferred-type"
 				case strings.HasSuffix(why, "object-new-field"):
 					key = "json-object-new-field-dropped"
 				}
@@ -733,8 +736,11 @@ func runCSVCase(c *core.Ctx, rng *rand.Rand, id string) {
 			m := fileh.Matches(rec[j], t)
 			desc := fmt.Sprintf("row %d column %s (%s): cell %q -> %s", i, f.Name, fileh.TypeText(t), cell, trunc(fileh.ShowVal(rec[j]), 80))
 			switch {
+			case !rep && i < preview && !selftest:
+				// a previewed row that does not fit the type inferred from the preview: the inference is wrong
+				addClass("csv:preview-row-not-covered-by-inferred-type", desc)
 			case !rep && why == "empty":
-				// predicate: empty cell in a column whose type does not admit NULL; symptom: NULL, no error
+				// predicate: empty cell BEYOND the preview in a column whose type does not admit NULL; symptom: NULL, no error
 				if rec[j].TypeID == octosql.TypeIDNull && !selftest {
 					addClass("csv-empty-cell-nonnullable-null", desc)
 				} else {
